@@ -79,6 +79,15 @@ def main():
             sigs = re.findall(r'^\[' + cid + r':([^\]]+)\] (.+?) — ', out, re.M)
             meta['check'] = {'built': True, 'tier': tier, 'exit': rc, 'detected': rc == 1, 'wall_s': round(time.time() - t0, 1),
                              'violations': [{'sub': s, 'signature': g} for s, g in sigs][:8], 'summary': out.strip().splitlines()[-1][:300] if out.strip() else ''}
+            # ./check runs the pure-computation groups in the plain profile as well (no debug assertions, wrapping arithmetic)
+            if rc == 0 and group in ('pv-crypto', 'pv-math', 'pv-codec', 'pv-addr'):
+                rcb, outb = sh(f"cargo build --profile release-wrap --offline -p {group} --config '{cfg}' 2>&1 | tail -20", cwd='/verif/harness', env={'CARGO_TARGET_DIR': f'{wt}/th'})
+                if 'Finished' in outb:
+                    rc2, out2 = sh(f'{wt}/th/release-wrap/{group} {cid} --tier {tier}', env={'PALLAS_REPO': wt, 'PV_OUT_DIR': f'{wt}/out', 'VERIF_DIR': '/verif', 'VERIF_SEED': '1'}, timeout=7200)
+                    sigs2 = re.findall(r'^\[' + cid + r':([^\]]+)\] (.+?) — ', out2, re.M)
+                    meta['check'].update({'exit_plain_profile': rc2, 'detected': rc2 == 1, 'profile': 'detected only in the profile without debug assertions' if rc2 == 1 else 'both profiles',
+                                          'violations': [{'sub': s, 'signature': g} for s, g in sigs2][:8], 'summary': out2.strip().splitlines()[-1][:300] if out2.strip() else ''})
+                    if rc2 == 1: meta['check']['exit'] = 1
     # revert, then demo without the change
     sh('git checkout -- .', cwd=wt)
     if meta.get('patch_applies') and do_demo and os.path.exists(f'{sd}/run.sh'):
